@@ -219,7 +219,8 @@ def harnesses(tier, seed):
 
     # oversampled lengths that cross powers of two and every integer constant of the numeric code: (m, n) with
     # (m-1)*n+1 just above the threshold
-    thresholds = sorted(set([64, 128, 256, 512, 1024] + [c for c in A.code_constants(lo=16, hi=(2100 if quick else 70000), exclude="datasets")]))
+    thresholds = sorted(set([64, 128, 256, 512, 1024] + [c for c in A.code_constants(lo=16, hi=(2100 if quick else 70000), exclude="datasets")])
+                        | set(A.thresholds(9000 if quick else 70000)))
     size_pairs = sorted({(c // n + 2, n) for c in thresholds for n in (2, 7, 18, 40) if c // n + 2 >= 3}
                         | {(2 * c // n + 2, n) for c in thresholds for n in (7, 18) if c <= 1100})
 
